@@ -1,9 +1,19 @@
 #!/bin/sh
-# Builds the framework from files on disk only (offline): Lean library + drivers, Rust harness.
-set -e
+# Builds the framework from files on disk only (offline): Lean library, every property module,
+# the per-component model drivers, and the Rust harness.  A failure of one Lean target does not
+# stop the others (each ./check rebuilds what it needs and reports precisely); the script fails
+# only if nothing usable could be built.
 cd "$(dirname "$0")/.."
 export CARGO_NET_OFFLINE=true
 mkdir -p .work
-(cd lean && lake build)
-(cd harness && cargo build --profile verif)
-echo setup-ok
+rc=0
+cd lean
+mods=$(ls CV/Properties/*.lean | sed 's/\.lean$//; s/\//./g')
+drivers=$(ls Main?*.lean | sed 's/^Main//; s/\.lean$//' | tr 'A-Z' 'a-z' | sed 's/^/cvdriver_/')
+lake build CV cvdriver || rc=1
+for t in $drivers; do lake build $t || { echo "setup: driver $t failed"; rc=1; }; done
+lake build $mods || { echo "setup: some property modules failed; building them one by one"; for m in $mods; do lake build $m >/dev/null 2>&1 || echo "setup: FAILED $m"; done; rc=1; }
+cd ../harness
+cargo build --profile verif || { echo "setup: harness build failed"; rc=1; }
+[ $rc -eq 0 ] && echo setup-ok
+exit $rc
